@@ -29,7 +29,7 @@ type c11Case struct {
 func init() {
 	engine.Register(&engine.Check{
 		ID: "C11", Level: "exploration",
-		Rule:        "every closed ring of 3 and 4 vertices on the 4x4 grid and of 5 vertices on the 3x3 grid (thorough: also 5 vertices on the 4x4 grid) - simple, self-intersecting, degenerate, with repeated vertices and horizontal edges, every direction and start vertex - with vertices on even coordinates x every query point of the doubled grid (edge midpoints, points level with vertices); translated copies at 2^26 and layouts XYZ/XYZM with NaN extras; the vertex lattice queried again in XYZ/XYM/XYZM with extra ordinates that differ between query point and vertices; a split-ratio sweep (triangles with a slanted edge through the origin divided a:b for all a,b <= 24 in 10 directions, every start vertex and direction, queried at the origin and its neighbours); LocatePointInRing/IsPointInRing vs the exact even-odd rule evaluated with a vertical ray; IsOnLine/PointIntersectsLine for every segment and 3-vertex polyline x every point of the 5x5 grid plus +-1 ulp perturbations of exactly-on-segment configurations. distinct_nontrivial = distinct (ring, point) pairs with a ring of non-zero area or a boundary hit",
+		Rule:        "every closed ring of 3 and 4 vertices on the 4x4 grid and of 5 vertices on the 3x3 grid (thorough: also 5 vertices on the 4x4 grid) - simple, self-intersecting, degenerate, with repeated vertices and horizontal edges, every direction and start vertex - with vertices on even coordinates x every query point of the doubled grid (edge midpoints, points level with vertices); translated copies at 2^26 and layouts XYZ/XYZM with NaN extras; the vertex lattice queried again in XYZ/XYM/XYZM with extra ordinates that differ between query point and vertices; a split-ratio sweep (triangles with a slanted edge through the origin divided a:b for all a,b <= 24 in 10 directions, every start vertex and direction, queried at the origin and its neighbours); LocatePointInRing/IsPointInRing vs the exact even-odd rule evaluated with a vertical ray; IsOnLine/PointIntersectsLine for every segment and 3-vertex polyline x every point of the 5x5 grid plus +-1 ulp perturbations of exactly-on-segment configurations; plus lean sweeps of ~7*10^6 point-on-segment queries over near-collinear float triples (the float-line lattice, mixed-magnitude collinear triples with one- and two-ulp perturbations, segments through the coordinate origin; each point of a triple against the segment of the other two). distinct_nontrivial = distinct (ring, point) pairs with a ring of non-zero area or a boundary hit",
 		Run:         c11Run,
 		Replay:      func(c *engine.Ctx, kind string, raw json.RawMessage) { c11Exec(c, decodeCase[c11Case](raw)) },
 		Assumptions: []string{"ordinates on an integer grid up to 2^26 (differences exact) for rings; moderate floats for point-on-line"},
@@ -144,7 +144,41 @@ func c11Exec(c *engine.Ctx, cs c11Case) {
 	c.Sample(cs.Mode, 3, cs)
 }
 
+// c11LeanLine: point-on-segment for one near-collinear float triple in its three roles (each
+// point as the query against the segment of the other two), one call each against the exact
+// answer (exactly collinear and inside the segment's box); a disagreement goes through c11Exec.
+func c11LeanLine(c *engine.Ctx, counter string, a, b, p [2]float64) {
+	pts := [3][2]float64{a, b, p}
+	for q := 0; q < 3; q++ {
+		Q, S, E := pts[q], pts[(q+1)%3], pts[(q+2)%3]
+		if S == E {
+			continue
+		}
+		want := exactSign3Small(S[0], S[1], E[0], E[1], Q[0], Q[1]) == 0 &&
+			Q[0] >= math.Min(S[0], E[0]) && Q[0] <= math.Max(S[0], E[0]) && Q[1] >= math.Min(S[1], E[1]) && Q[1] <= math.Max(S[1], E[1])
+		var got bool
+		if pn, _ := engine.Guard(func() { got = xy.IsOnLine(geom.XY, geom.Coord{Q[0], Q[1]}, []float64{S[0], S[1], E[0], E[1]}) }); pn != nil || got != want {
+			c11Exec(c, c11Case{Mode: "line", Ring: []ref.F{ref.F(S[0]), ref.F(S[1]), ref.F(E[0]), ref.F(E[1])}, P: []ref.F{ref.F(Q[0]), ref.F(Q[1])}, Layout: geom.XY})
+			continue
+		}
+		c.Count("evaluations", 1)
+		c.Count(counter, 1)
+	}
+}
+
 func c11Run(c *engine.Ctx) {
+	// point-on-line over moderate-magnitude floats: the near-collinear families of C10 (float-line
+	// lattice, exactly collinear mixed-magnitude triples with ulp perturbations, segments through
+	// the coordinate origin), every point of a triple queried against the segment of the other two
+	if c.Thorough() {
+		sweepFloatLines(c, 128, func(a, b, p [2]float64) { c11LeanLine(c, "lean_line_queries", a, b, p) })
+		sweepMixed(c, 20, 200, func(a, b, p [2]float64) { c11LeanLine(c, "lean_line_queries", a, b, p) })
+		sweepThroughOrigin(c, 4096, func(a, b, p [2]float64) { c11LeanLine(c, "lean_line_queries", a, b, p) })
+	} else {
+		sweepFloatLines(c, 32, func(a, b, p [2]float64) { c11LeanLine(c, "lean_line_queries", a, b, p) })
+		sweepMixed(c, 20, 60, func(a, b, p [2]float64) { c11LeanLine(c, "lean_line_queries", a, b, p) })
+		sweepThroughOrigin(c, 512, func(a, b, p [2]float64) { c11LeanLine(c, "lean_line_queries", a, b, p) })
+	}
 	gridN := func(n int, step float64) [][2]float64 {
 		var g [][2]float64
 		for x := 0; x < n; x++ {
